@@ -20,7 +20,7 @@ import warnings
 
 import numpy as np
 
-from ..kit import simfs
+from ..kit import simfs, globalstate
 from ..kit.core import World, Violation, HarnessError, canon, sha1, strip_traceback
 from . import model_zoo as zoo
 from .model_zoo import ADAPTERS, TEMPLATES, obs_diff, project
@@ -28,7 +28,7 @@ from .model_zoo import ADAPTERS, TEMPLATES, obs_diff, project
 VERIF = os.path.dirname(os.path.dirname(os.path.dirname(os.path.abspath(__file__))))
 
 OP_WEIGHTS = {"new": 2, "mutate": 30, "read": 12, "spawn": 12, "save": 8, "load": 7, "split": 12, "replay": 6,
-              "drop": 3, "handoff": 1}
+              "drop": 3, "handoff": 1, "cleanroom": 1}
 FAULT_KINDS = ("open_enoent", "open_eacces", "open_enospc", "write_enospc", "write_eio", "read_eio", "close_eio", "crash")
 RTOL = 1e-9
 
@@ -60,6 +60,10 @@ class ModelsWorld(World):
             weights["handoff"] = 0
         if tier != "quick" and rng.random() > 0.25:
             weights["handoff"] = 0
+        if tier == "quick" and rng.random() > 0.05:
+            weights["cleanroom"] = 0
+        if tier != "quick" and rng.random() > 0.2:
+            weights["cleanroom"] = 0
         faulty = rng.random() < 0.4
         if rng.random() < 0.08:
             # single-fault sweep over one sampled save workload (see DESIGN 2.4)
@@ -98,6 +102,8 @@ class ModelsWorld(World):
         self.counter = 0
         self.seq = 0
         self.handoffs = 0
+        self.cleanrooms = 0
+        self._g0 = globalstate.snapshot()
 
     def close(self):
         simfs._CURRENT["fs"] = None
@@ -330,6 +336,9 @@ class ModelsWorld(World):
                 m = {"k": "assign_variant", "v": rng.randrange(nv), "values": vals, "how": rng.choice(["getitem", "get_variant"])}
             elif x < 0.7:
                 m = {"k": "steady"}
+                if r.tname == "nonlin" and rng.random() < 0.3:
+                    # a documented keyword of the nonlinear steady-state solver; tight budgets make the call fail, legally
+                    m["settings"] = {"max_iterations": rng.choice([2, 3, 200])}
             elif x < 0.9:
                 m = {"k": "solve"}
             elif x < 0.94:
@@ -437,6 +446,14 @@ class ModelsWorld(World):
         if h is None:
             return None
         return {"op": "replay", "args": {"h": h}}
+
+    def _gen_cleanroom(self, actor, rng, val, flt):
+        if self.cleanrooms >= 1:
+            return None
+        h = self._pick(rng, actor)
+        if h is None:
+            return None
+        return {"op": "cleanroom", "args": {"h": h}}
 
     def _gen_handoff(self, actor, rng, val, flt):
         if self.handoffs >= 1:
@@ -926,6 +943,42 @@ class ModelsWorld(World):
             self.probes["split_check_on_third_variant"] += 1
         return "ok"
 
+    def _cleanroom(self, opname, pred, r: Replica, why=""):
+        """
+        The replica against its own logical log replayed in a FRESH interpreter, where nothing else has ever
+        happened: whatever reached the replica through process-global state (module-level defaults or caches
+        written by operations on OTHER objects) is absent there.
+        """
+        doc = {"tname": r.tname, "cls": r.cls, "log": r.log, "horizon": self.cfg["horizon"]}
+        fd, path = tempfile.mkstemp(prefix="irsim-cleanroom-", suffix=".json", dir=os.environ.get("TMPDIR", "/tmp"))
+        try:
+            with os.fdopen(fd, "w") as f:
+                json.dump(doc, f)
+            cp = subprocess.run([sys.executable, "-W", "ignore", "-m", "sim.handoff", "--log", path],
+                                cwd=VERIF, env=dict(os.environ), capture_output=True, text=True, timeout=300)
+        finally:
+            try:
+                os.unlink(path)
+            except OSError:
+                pass
+        self.cleanrooms += 1
+        self.probes["cleanroom_comparisons"] += 1
+        if cp.returncode != 0:
+            raise HarnessError(f"clean-room interpreter failed: {cp.stderr[-400:]}")
+        other = json.loads(cp.stdout.strip().splitlines()[-1])
+        mine = json.loads(json.dumps({"cheap": self._cheap(r), "deep": self._deep(r), "raised": r.raised}))
+        if other["raised"] != mine["raised"]:
+            raise Violation("cleanroom", opname, pred, "", f"mutators raised {mine['raised']} on the replica but {other['raised']} when its logical log is replayed in a fresh interpreter{why}")
+        d = obs_diff(other["cheap"], mine["cheap"], RTOL) or obs_diff(other["deep"], mine["deep"], RTOL)
+        if d:
+            raise Violation("cleanroom", opname, pred, "", f"replica (origin {r.origin}) differs from its logical log replayed in a fresh interpreter{why}: {d}")
+
+    def _do_cleanroom(self, step, a):
+        r = self.live[a["h"]]
+        self._cleanroom("cleanroom", self._pred(r), r)
+        self._isolation("cleanroom", self._pred(r))
+        return "ok"
+
     def _do_handoff(self, step, a):
         h = a["h"]
         r = self.live[h]
@@ -972,6 +1025,18 @@ class ModelsWorld(World):
         self.known_examples.setdefault(v.signature, {"what": e.get("what", ""), "message": v.message})
 
     def _finish(self):
+        # process-global irispie state written during this run is not a verdict (a well-keyed cache is legitimate),
+        # it is the trigger for the clean-room comparison of (up to two) live replicas
+        g1 = globalstate.snapshot()
+        changed = globalstate.diff(self._g0, g1)
+        if changed:
+            self.probes["process_global_state_changed"] += 1
+            why = f" (process-global state written during the run: {changed[:3]})"
+            for h, r in sorted(self.live.items())[:2]:
+                try:
+                    self._cleanroom("finish.cleanroom", self._pred(r), r, why)
+                except Violation as v:
+                    self._known_or_raise(v)
         # every replica equals the fresh replay of its own logical log
         for h, r in sorted(self.live.items()):
             try:
